@@ -63,7 +63,7 @@ def make_cfg(seed, i, typ):
         cfg = campaign.gen_cfg(rng, maxfuns=(20, 30, 45), nmax=3, proj_p=0.04, reg_p=0.10, restarts_p=0.6, averaging_p=0.25)
         if cfg.get("proj") or cfg.get("reg"):
             cfg["args"]["maxfun"] = min(cfg["args"]["maxfun"], 18)
-        if i % 6 == 2 and not cfg.get("proj"):
+        if i % 3 == 2 and not cfg.get("proj"):
             # batch initialisation (all initial points evaluated before any is stored) with a residual function that returns one
             # re-used buffer: the exit-index enumeration ends the run at each initial point in turn
             cfg["user_params"]["init.random_initial_directions"] = True
